@@ -44,7 +44,7 @@ class SpecRT:
                      'mem', 'length', 'msg_names', 'exact_arith', 'instance_is', 'V_of_int', 'field_updated', 'field_unchanged',
                      'dhas', 'dval', 'distinct_refs', 'is_digit_string', 'int_accepts', 'norm_any', 'dict_is',
                      'old_dict', 'dict_same', 'any_mem', 'any_of', 'any_is_int', 'any_int_value', 'str_is_int_of',
-                     'any_is_none', 'any_eq', 'any_same', 'returned_class'}
+                     'any_is_none', 'any_eq', 'any_same', 'returned_class', 'is_the_election'}
 
     def init(self):
         self.ctx = None
@@ -394,6 +394,16 @@ class SpecRT:
             n[ln] = len(n) + 1
         ex.site_counts[key] = n
         return '%s#%d' % (info.qualname.rsplit('.', 1)[-1], n[ln])
+
+    def site_anchor_n(self, caller, what, line):
+        "ordinal of a site (by source line) among sites of the same kind in the caller"
+        ex = self.ex
+        key = (caller, what)
+        n = ex.site_counts.get(key, {})
+        if line not in n:
+            n[line] = len(n) + 1
+        ex.site_counts[key] = n
+        return n[line]
 
     def apply_contract(self, con, info, env, st, fr, node):
         ex = self.ex
